@@ -20,7 +20,7 @@ OPS = ("rfft", "ifft", "parseval", "fftconvolve", "correlate", "mspec")
 
 
 def REQUIRED(tier):
-    return [f"op:{o}" for o in OPS] + ["len:odd_good_size", "len:prime", "len:power_of_two", "direct_dft_checks", "op:rfft_after_longer", "class:max_zero", "input_unchanged_checks", "regime:second_operand_longer", "mspec:after_interpolated_request", "correlate:operands_share_a_buffer", "rfft:after_in_place_edits", "kernel:zeros_at_both_ends", "correlate:template_series_reused", "flat_kernel_on_long_offset_series"]
+    return [f"op:{o}" for o in OPS] + ["len:odd_good_size", "len:prime", "len:power_of_two", "direct_dft_checks", "op:rfft_after_longer", "class:max_zero", "input_unchanged_checks", "regime:second_operand_longer", "mspec:after_interpolated_request", "correlate:operands_share_a_buffer", "rfft:after_in_place_edits", "kernel:zeros_at_both_ends", "correlate:template_series_reused", "flat_kernel_on_long_offset_series", "class:high_baseline", "rfft:held_spectrum_after_deredden"]
 
 
 def EXHAUSTIVE(tier):
@@ -53,6 +53,8 @@ def _data(rng, n, cls):
         x = rng.normal(size=n).astype(np.float32)
         x = x - x.max() if n > 1 and rng.random() < 0.5 else -np.eye(1, n, int(rng.integers(0, n)), dtype=np.float32).ravel() * np.float32(2.5)
         return x.astype(np.float32)
+    if cls == "high_baseline":   # total-power data: a level thousands of times the scatter
+        return (1.0e6 + 50.0 * rng.normal(size=n)).astype(np.float32)
     if cls == "impulse_k":   # a single unit impulse at a small odd index: bins with |re| == |im| exactly
         x = np.zeros(n, dtype=np.float32)
         x[min(n - 1, int(rng.choice([1, 3])))] = 1.0
@@ -116,7 +118,7 @@ def run_case(case, ctx):
 
     for n in case["ns"]:
         rng = np.random.default_rng([case["seed"], n])
-        classes = ("normal", "constant", "impulse", "impulse_k", "dynrange", "max_zero") if not case.get("big") else ("normal",)
+        classes = ("normal", "constant", "impulse", "impulse_k", "dynrange", "max_zero", "high_baseline") if not case.get("big") else ("normal",)
         for cls in classes:
             x = _data(rng, n, cls)
             ctx.count(f"class:{cls}")
@@ -282,6 +284,18 @@ def run_case(case, ctx):
             want2 = _dft(np.asarray(tsm.data, dtype=np.float64), L2) if L2 <= 512 else np.fft.rfft(np.asarray(tsm.data, dtype=np.float64), L2)
             if np.max(np.abs(np.asarray(f2.data).astype(np.complex128) - want2)) > 1e-5 * float(np.linalg.norm(np.asarray(tsm.data, dtype=np.float64))) * max(1.0, np.log2(L2 + 1) / 4):
                 ctx.violation("rfft-values:after-in-place-edits", f"n={n}: rfft() called again after the series (and the earlier spectrum) were edited in place does not describe the current samples", {"ns": [n], "seed": case["seed"], "cls": "edited"})
+        # ---- whitening a spectrum gives a new spectrum: the forward transform the caller holds still describes the series
+        if n >= 8 and not case.get("big") and n % 5 == 3:
+            fsd = TimeSeries(_data(rng, n, "normal"), _hdr(n)).rfft()
+            snapd = np.array(np.asarray(fsd.data), copy=True)
+            try:
+                with np.errstate(all="ignore"):
+                    fsd.deredden()
+                ctx.evaluated(); ctx.count("op:rfft"); ctx.count("rfft:held_spectrum_after_deredden")
+                if not np.array_equal(np.asarray(fsd.data), snapd):
+                    ctx.violation("spectrum-changed-by-deredden", f"n={n}: the spectrum returned by rfft() holds other values after its deredden() was called (the whitened copy is a separate result)", {"ns": [n], "seed": case["seed"], "cls": "deredden"})
+            except Exception:  # noqa: BLE001
+                ctx.count("deredden_unavailable")
         # ---- a shorter series transformed right after a longer one that pads to the same length (stale work buffers)
         if n >= 3 and not case.get("big"):
             for k in (1, 2):
